@@ -755,7 +755,7 @@ def gen_ops(rng, ty, nops, ln, big, allow_small_buffer):
     ops = []
     have_shuffle = False
     for _ in range(nops):
-        wild = rng.random() < 0.12
+        wild = rng.random() < 0.08
         t = 'any' if wild else ty
         if t in ('int', 'intx', 'any'):
             c = rng.choice(['map', 'map', 'filter', 'head', 'tail', 'batch', 'accumulate', 'groupby', 'buffer',
@@ -861,7 +861,7 @@ def fix_buffers(ops, partial):
 def gen_case(rng, tier, boundary=False):
     big = tier == 'thorough'
     kind = rng.choice(['int', 'int', 'int', 'intx', 'list', 'mixed'])
-    ln = rng.choice([0, 1, 2, 3, 5, 8, 12] if not big else [0, 1, 2, 4, 9, 16, 25, 40])
+    ln = rng.choice([0, 1, 2, 3, 4, 5, 6, 8, 10, 12] if not big else [0, 1, 2, 4, 6, 9, 16, 25, 40])
     if boundary:
         ln = rng.choice([0, 1, 2, 3])
     if kind == 'int':
@@ -879,7 +879,7 @@ def gen_case(rng, tier, boundary=False):
     else:
         vals = [_gen_val(rng) for _ in range(ln)]
         ty = 'any'
-    err = [rng.randrange(4), rng.randrange(9)] if rng.random() < 0.25 else None
+    err = [rng.randrange(4), rng.randrange(9)] if rng.random() < 0.2 else None
     nops = rng.randrange(0, 7) if not boundary else rng.randrange(1, 4)
     partial = rng.random() < 0.6
     ops = gen_ops(rng, ty, nops, ln, big, allow_small_buffer=True)
